@@ -72,6 +72,19 @@ func (u C8User) WithCtx(ctx *pongo2.ExecutionContext, s string) string {
 	}
 	return "ctx+" + s
 }
+func (u C8User) CtxJoin(ctx *pongo2.ExecutionContext, sep string, xs ...string) string {
+	if ctx == nil {
+		return "noctx"
+	}
+	return "cj:" + strings.Join(xs, sep)
+}
+func (u C8User) CtxSum(ctx *pongo2.ExecutionContext, xs ...int) int {
+	s := 0
+	for _, x := range xs {
+		s += x
+	}
+	return s
+}
 func (u C8User) AnyArg(a any) string          { return fmt.Sprintf("any:%v", a) }
 func (u C8User) Half(f float64) float64       { return f / 2 }
 func (u C8User) Neg(b bool) bool              { return !b }
@@ -98,7 +111,8 @@ func c8Root(r *Rng) map[string]any {
 		"f0": func() string { return "f0r" }, "f1": func(i int) int { return i + 1 }, "f2": func(a, b string) string { return a + b },
 		"fv": func(xs ...int) int { return len(xs) }, "fval": func(v *pongo2.Value) *pongo2.Value { return pongo2.AsValue("<" + v.String() + ">") },
 		"ferr": func(fail bool) (int, error) { if fail { return 0, errors.New("ferr-failed") }; return 5, nil },
-		"fctx": func(ctx *pongo2.ExecutionContext) string { return "implicit" }, "fptr": func() *C8User { return &u }, "fnil": func() *C8User { return nil },
+		"fctx": func(ctx *pongo2.ExecutionContext) string { return "implicit" },
+		"fctxv": func(ctx *pongo2.ExecutionContext, xs ...int) int { return 100 + len(xs) }, "fctx2": func(ctx *pongo2.ExecutionContext, a int, b string) string { return fmt.Sprint(a, b) }, "fptr": func() *C8User { return &u }, "fnil": func() *C8User { return nil },
 		"fstruct": func() C8User { return u }, "flist": func() []int { return []int{7, 8} }, "fmap": func() map[string]int { return map[string]int{"z": 26} },
 	}
 }
